@@ -151,3 +151,20 @@ PROPS["C01"] = {
     "outside": "programs beyond the catalog; format() (C17); modules (C13); map iteration order, append capacity, cyclic containers, clock/random/OS (excluded by the property)",
     "stubs": COMMON_STUBS,
 }
+
+PROPS["C04"] = {
+    "level": "model_checking",
+    "harness": ["C04_"],
+    "tiers": {
+        "quick": {"timeout": "20s", "maxsteps": 12000000, "bounds": "every byte string of length 1..3 (all 256 values per byte) as script source and as module body; scanner progress on every byte string of length 1..3; 4 seed programs with one arbitrary byte replaced or inserted at every position; 20 templates x 17 identifier substitutions x 13 statement substitutions x 4 configurations (module maps, predeclared variables)", "cross": 2},
+        "thorough": {"timeout": "60s", "maxsteps": 12000000, "bounds": "byte strings of length 1..4; 10 seed programs with one arbitrary byte replaced/inserted; templates as quick", "cross": 3},
+    },
+    "reach": {"C04_Bytes": ["bytes"], "C04_ModuleBody": ["module"], "C04_SeedHole": ["seedhole"], "C04_Templates": ["templates"], "C04_ScannerProgress": ["scanner"]},
+    "assumptions": [
+        "unicode.IsLetter/IsDigit/IsSpace on a symbolic (non-ASCII) rune are uninterpreted predicates of the rune (over-approximation, sound for totality; counterexamples are replayed natively)",
+        "the template family is a finite-domain case split (no wide variable); the byte families are decided for all 256 values of every byte",
+        "'returns' = within 3M SSA steps; Go stack exhaustion from deeply nested input needs inputs longer than the bound",
+    ],
+    "outside": "inputs longer than the bound with more than one arbitrary byte; file import enabled (reaches the OS)",
+    "stubs": COMMON_STUBS,
+}
